@@ -1,6 +1,7 @@
 package otto
 
 import (
+	"fmt"
 	"reflect"
 )
 
@@ -31,6 +32,10 @@ func newGoMapObject(value reflect.Value) *goMapObject {
 
 func (o goMapObject) toKey(name string) reflect.Value {
 	reflectValue, err := stringToReflectValue(name, o.keyType.Kind())
+	if err == nil && toValue(reflectValue).String() != name {
+		// Only the spelling that enumeration produces names a key: "0x10" or "+16" is not the key 16.
+		err = fmt.Errorf("%q is not a key of a Go %s", name, o.value.Type())
+	}
 	if err != nil {
 		panic(goValueError(err))
 	}
@@ -57,7 +62,7 @@ func goMapGetOwnProperty(obj *object, name string) *property {
 	// from a string, and 3) having a meaningful failure case in this context
 	// other than "key does not exist"
 	key, err := stringToReflectValue(name, goObj.keyType.Kind())
-	if err != nil {
+	if err != nil || toValue(key).String() != name {
 		return nil
 	}
 
